@@ -537,8 +537,9 @@ TailEval(s, o, e, env) ==
             !.ctl = Eval(e, env)]
 SubEval(s, o, e, env) == [s EXCEPT !.k = SetTop(@, o), !.ctl = Eval(e, env)]
 OpReturn(s, v) == [PopCall([s EXCEPT !.k = Pop(@)]) EXCEPT !.ctl = Ret(v)]
+\* an error raised by the operator itself is created while the operator's frame is still on the stack
 OpFail(s, env) ==
-  LET s1 == PopCall([s EXCEPT !.k = Pop(@)]) IN Fail(s1, env)
+  LET e == Fail(s, env) IN [PopCall([e EXCEPT !.k = Pop(@)]) EXCEPT !.ctl = e.ctl]
 NewEnv(s, parent) == [s EXCEPT !.envs = Append(@, NewEnvRec(parent, s.envs[parent].loc))]
 PutVar(s, e, name, v) == [s EXCEPT !.envs[e].vars = [x \in DOMAIN @ \cup {name} |-> IF x = name THEN v ELSE @[x]]]
 BadKey(x) == x.t # "sym" \/ (x.p = "" /\ x.s \in {"true", "false"})
